@@ -27,7 +27,7 @@ def _limits(lim, ind):
     if not lim:
         return []
     out = [f"{ind}limits {{"]
-    for k, v in lim.items():
+    for k, v in (lim.items() if isinstance(lim, dict) else lim):   # a list of pairs allows several entries of one kind
         if isinstance(v, tuple):  # (value, [resources])
             out.append(f"{ind}  {k} {v[0]} {{ resources {', '.join(v[1])} }}")
         else:
